@@ -2196,9 +2196,14 @@ int cif_value_init_numb(cif_value_tp *n, double val, double su, int scale, int m
         FAILURE_HANDLING;
         struct numb_value_s *numb = &(n->as_numb);
         int most_significant_place = MSP(val);
-        char *locale = setlocale(LC_NUMERIC, "C");
+        /*
+         * Query the current numeric locale and keep a copy of its name: the string returned by setlocale() may be
+         * overwritten by subsequent calls, and a call that sets the locale returns the name of the new one.
+         */
+        char *current_locale = setlocale(LC_NUMERIC, NULL);
+        char *locale = ((current_locale == NULL) ? NULL : strdup(current_locale));
 
-        if (locale != NULL) {
+        if ((locale != NULL) && (setlocale(LC_NUMERIC, "C") != NULL)) {
             char *digit_buf = to_digits(val, scale);
 
             if (digit_buf == NULL) {
@@ -2252,6 +2257,7 @@ int cif_value_init_numb(cif_value_tp *n, double val, double su, int scale, int m
 
                     /* restore the original locale */
                     setlocale(LC_NUMERIC, locale);
+                    free(locale);
 
                     return CIF_OK;
                 }
@@ -2265,6 +2271,7 @@ int cif_value_init_numb(cif_value_tp *n, double val, double su, int scale, int m
             /* restore the original locale */
             setlocale(LC_NUMERIC, locale);
         }
+        free(locale);  /* harmless if NULL */
 
         FAILURE_TERMINUS;
     }
@@ -2301,9 +2308,10 @@ int cif_value_autoinit_numb(cif_value_tp *numb, double val, double su, unsigned 
             int result_code = CIF_INTERNAL_ERROR;
 
             /* number formatting and parsing must be done in the C locale to ensure portability */
-            char *locale = setlocale(LC_NUMERIC, "C");
+            char *current_locale = setlocale(LC_NUMERIC, NULL);
+            char *locale = ((current_locale == NULL) ? NULL : strdup(current_locale));
 
-            if (locale != NULL) {
+            if ((locale != NULL) && (setlocale(LC_NUMERIC, "C") != NULL)) {
                 char buf[BUF_SIZE];
                 int rule_digits;
 
@@ -2357,6 +2365,7 @@ int cif_value_autoinit_numb(cif_value_tp *numb, double val, double su, unsigned 
 
                 (void) setlocale(LC_NUMERIC, locale);
             }
+            free(locale);  /* harmless if NULL */
 
             return result_code;
         }
